@@ -29,8 +29,8 @@ def run(chk, repo: Repo):
     chk.rule("C09-R1", "sweep loop iterates the full list target.get_parameter_names()", floor=2)
     chk.rule("C09-R2", "block target = joint(**{all other names: live current values}), re-created inside the loop before the block's step", floor=2)
     chk.rule("C09-R3", "new block value written back to the live mapping on every path of the loop body; sampler starts from the "
-                       "current value; advanced num_sampling_steps times", floor=4)
-    chk.rule("C09-R4", "each sweep is followed by a store of every block; continuation resumes from the last stored sample", floor=5)
+                       "current value (legacy: every step override reads its current-value parameter or is a tabled closed-form draw); advanced num_sampling_steps times", floor=4)
+    chk.rule("C09-R4", "each sweep is followed by a store of every block; continuation resumes from the last stored sample; sample/warmup have no effect on the sampler outside the sweep loop", floor=5)
     chk.rule("C09-R5", "samplers are constructed on target() (see C11-R5)", floor=2)
     chk.rule("C09-R6", "target-derived cached state is not restored across a change of the block sampler's target", floor=1)
     _hybrid(chk, repo)
